@@ -1,3 +1,34 @@
 """Configuration of ./check for property C06 (loaded by tools/props.py)."""
 
-PROP = {'engine': 'srv', 'lean_props': ['MuscleModel.Props.C01'], 'harnesses': [{'name': 'srv', 'sources': ['harness/srv.cpp']}]}
+PROP = {'engine': 'srv',
+ 'lean_props': ['MuscleModel.Props.C06'],
+ 'harnesses': [{'name': 'srv', 'sources': ['harness/srv.cpp']}],
+ 'trusted_base': ['hand-written Lean model of the reflector: node tree, path matcher, literal wildcard traversal, notification pipeline, command handlers '
+                  '(lean/MuscleModel/Reflector/{Glob,Tree,Traverse,Server,Handlers}.lean, Engines/Srv.lean)',
+                  'tie: harness/srv.cpp drives a real in-process ReflectServer (one ServerProcessLoop iteration at a time, real MessageIOGateways over socket '
+                  "pairs); tree digest, per-node subscriber tables and every Message each client receives must equal the model's prediction line by line",
+                  'clause patterns in the reflector model are the fragment {literal, \\\\c, *, ?, top-level comma}; the full pattern syntax is property C15; '
+                  'glibc regcomp/regexec trusted as there',
+                  'content filters in the reflector engine are int32 comparisons on one field; the full filter language is property C14'],
+ 'assumptions': ['child names unique below root and host node (Hashtable in the code)'],
+ 'rule': 'generated histories over 2-5 sessions on two hosts: attach/detach, SETDATA (incl. ADDTOINDEX), REMOVEDATA with wildcards, SUBSCRIBE with/without '
+         'int32 filters, re-filter, unsubscribe, reflect-to-self, max-items, default route, client-to-client Messages with 0-2 key patterns, '
+         'INSERTORDEREDDATA, REORDERDATA, BATCH, PING, FindMatchingNodes; every 4th case is the hostile stream (arbitrary structurally valid Messages with '
+         'reserved names and wrong types, quiet flags, GETDATA, JETTISONRESULTS with filters while a client is not reading, connection cuts after a byte '
+         'prefix) followed by a witness ping after every op; direct oracles evaluated on the real server at every quiescent point; distinct = distinct case '
+         'bodies',
+ 'timeout': 600}
+
+TEXT = {'design_ref': 'DESIGN.md section 4, C06',
+ 'technique': 'Lean 4 theorems (frame property of every command and every history; departure) over the reflector model + differential correspondence + '
+              'before/after digest oracle on a real server incl. connection cuts after a byte prefix',
+ 'text': "Proved in Lean for every server state, session and command (and every interleaved history): nodes outside the session's own subtree keep name, "
+         "payload, index, child order and every other session's subscription marks (`frame_tree`, `frame_tree_foreign`, `foreign_marks_kept`, "
+         '`victim_untouched`); other sessions keep subscriptions, parameters, flags and stay attached (`frame_sessions`); host and session nodes survive '
+         'REMOVEDATA (`own_root_kept`); on departure the session leaves the table, its subtree is gone, the marks it held on visited nodes are cleared and '
+         'nothing else changes (`departure_*`).  Tie: the model reproduces the real server; the harness compares a digest of everything foreign before/after '
+         "every command and after a connection cut placed inside a command's byte stream, and checks that no node or subscription mark of a departed session "
+         'remains.',
+ 'note': '`departure_no_marks` is partial (needs that every marked node is visited by the cleanup traversal = C05 completeness + a marks invariant); '
+         'privileged commands (KICK/bans) and the twin-server statement are covered by the oracle only.  Model covers the command subset of Engines/Srv.lean; '
+         'arbitrary Messages are decided by the oracle alone.'}
